@@ -272,7 +272,7 @@ func (ev *BEvent) class() int {
 
 func (ev *BEvent) park(d Dur) {
 	if d > 0 {
-		if ev.sc != nil && ev.sc.owner != nil && !raceTier && smtp.VerifConnLocked(ev.sc.owner) {
+		if ev.sc != nil && ev.sc.owner != nil && !raceTier && heldByCaller(ev.sc.owner) {
 			// a callback made with the Conn's mutex held is not parked (the fake clock
 			// would freeze as soon as somebody waits for the mutex)
 			return
@@ -462,6 +462,12 @@ func (ev *BEvent) consume(r io.Reader, p *DataPlan) {
 		i++
 		buf := make([]byte, sz)
 		n, err := r.Read(buf)
+		if _, pipe := r.(*io.PipeReader); pipe {
+			// A read from the delivery pipe returns when the command loop wrote or closed
+			// it, at the command loop's instant and next to it: go on at an instant of
+			// our own (this goroutine never holds the Conn's mutex).
+			sleepClass(ev.class(), 0)
+		}
 		rc := ReadCall{Buf: sz, N: n}
 		if err != nil {
 			rc.Err = err.Error()
